@@ -110,6 +110,7 @@ Plan generate(uint64_t seed, uint64_t run, bool thorough) {
     { static const long nsc[] = { 1, 1, 2, 2, 2, 2, 3 }; p.set("nullspace", r.chance(0.35) ? nsc[r.below(7)] : 0, 0); }      // near-null-space vectors handed to the distributed coarsening
     { double u = r.unit(); p.set("kind", u < 0.7 ? K_MPI_AMG : u < 0.85 ? K_SDD : K_BLOCK, 0); }
     p.set("local_relax_only", r.chance(0.4) ? 1 : 0, 0); p.set("local_coarsening", r.range(0, 2), 0); p.set("ndv", r.range(1, 2), 1);      // (no energy-minimising coarsening inside subdomains: its degenerate tiny levels are recorded under C02)
+    p.set("aggr_block", 0, 0);      // pointwise (block_size = 2) aggregation of a scalar problem is not a meaningful configuration (singular coarse levels): only from an explicit plan
     draw_schedule(r, p.sched, (int)p.get("R"));
     draw_vary_params(r, p, 0.3);
     return p;
@@ -128,6 +129,9 @@ Result execute(const Plan &p) {
     // (a rank without rows cannot describe its slice of the near-null-space vectors through the parameter tree: no empty ranks then)
     // (subdomain deflation needs a non-empty subdomain per rank: an empty one adds a zero row to the deflated matrix)
     std::vector<long> rp = draw_partition(pr, n, R, (p.get("allow_empty") != 0 && !nscols && kind != K_SDD) || n < R);
+    // pointwise aggregation with block_size 2: every rank must own an even number of rows
+    const bool aggr_block = p.get("aggr_block", 0) && kind == K_MPI_AMG && nscols == 0 && n % 2 == 0 && n >= 2 * R;
+    if (aggr_block) { for (int q = 1; q < R; ++q) rp[q] -= rp[q] % 2; }
     std::vector<double> NB((size_t)n * std::max<long>(nscols, 1));
     for (long i = 0; i < n; ++i) for (long k = 0; k < nscols; ++k) NB[(size_t)i * nscols + k] = k == 0 ? 1.0 : std::pow((double)(i + 1) / n, (double)k) + 0.25 * std::sin((double)(i * (k + 1)));
     std::vector<double> f = gen::make_vector(n, (uint64_t)p.get("vseed"), 0);
@@ -142,6 +146,7 @@ Result execute(const Plan &p) {
     prm.put("precond.coarse_enough", p.get("coarse_enough"));
     prm.put("precond.npre", p.get("npre")); prm.put("precond.npost", p.get("npre"));
     prm.put("precond.direct.type", "skyline_lu");
+    if (aggr_block) prm.put("precond.coarsening.aggr.block_size", 2);
     prm.put("precond.repart.type", "merge");
     // (near-null-space vectors + repartitioning is a recorded defect - the carried coarse vectors are not redistributed, the next
     //  level reads them out of bounds: C12-nullspace-not-repartitioned - such worlds are only run from an explicit replay plan)
@@ -192,8 +197,8 @@ Result execute(const Plan &p) {
                 std::tie(it, rs) = solve(fl, xl);
             } else {
                 q.put("solver.type", solver_names[solver]); q.put("solver.maxiter", 200);
-                BPSolver solve(comm, dA, q);
-                std::tie(it, rs) = solve(fl, xl);
+                if (p.get("vseed") & 1) { BPSolver solve(comm, dA, q); std::tie(it, rs) = solve(fl, xl); }
+                else { size_t chunk = (size_t)S.n; BPSolver solve(comm, std::tie(chunk, S.ptr, S.col, S.val), q); std::tie(it, rs) = solve(fl, xl); }      // both constructors: distributed matrix / local strip
             }
             iters[rank] = (double)it; resid[rank] = rs;
             for (long i = r0; i < r1; ++i) x[i] = xl[i - r0];
@@ -271,7 +276,8 @@ Result execute(const Plan &p) {
                 for (Entries::const_iterator a = L.A.begin(); a != L.A.end(); ++a) { long i = a->first.first, c = a->first.second; if (i != c && c < nA && eps2 * dia[i] * dia[c] < a->second * a->second) strong[i] = 1; }
                 std::vector<int> rowcnt(nA, 0), colcnt(nC, 0); bool unit = true;
                 for (Entries::const_iterator q = L.P.begin(); q != L.P.end(); ++q) { rowcnt[q->first.first]++; if (q->first.second < nC) colcnt[q->first.second]++; if (q->second != 1.0) unit = false; }
-                for (long i = 0; i < nA; ++i) if (strong[i] && rowcnt[i] == 0) { res.fail(sig("coarsening-structure", "non-isolated-unknown-in-an-aggregate", fmt("level %zu: unknown %ld of %ld has a strong neighbour but belongs to no aggregate (empty row of P)", l, i, nA))); break; }
+                // (pointwise aggregation decides strength on the block norms: the scalar criterion does not apply there)
+                if (!aggr_block) for (long i = 0; i < nA; ++i) if (strong[i] && rowcnt[i] == 0) { res.fail(sig("coarsening-structure", "non-isolated-unknown-in-an-aggregate", fmt("level %zu: unknown %ld of %ld has a strong neighbour but belongs to no aggregate (empty row of P)", l, i, nA))); break; }
                 if (coarsening == 0 && nscols > 0) {
                     // near-null space reproduced across rank boundaries: every supplied vector lies in the range of the tentative
                     // prolongation on the aggregated rows, P (P^T B) = B (the coarse vectors are P^T B when P has orthonormal columns,
@@ -310,7 +316,7 @@ Result execute(const Plan &p) {
     js::Value s = js::Value::object();
     s.set("kind", kind_names[kind]); s.set("ranks", R); s.set("family", gen::family_name((int)p.get("family"))); s.set("n", n); s.set("coarsening", coarsening_names[coarsening]); s.set("relax", relax_names[relax]); s.set("solver", solver_names[solver]);
     js::Value jp = js::Value::array(); for (int r = 0; r <= R; ++r) jp.push(rp[r]); s.set("row_partition", jp);
-    s.set("coarse_enough", p.get("coarse_enough")); if (!varied.empty()) { s.set("varied_parameters", varied); res.counts["varied_parameter_worlds"]++; } s.set("nullspace_vectors", nscols); s.set("repartition", (long)repart_on); s.set("late_send_read", (long)mc.late_send_read); s.set("recv_poison", (long)mc.recv_poison); s.set("rendezvous", (long)mc.rendezvous);
+    s.set("coarse_enough", p.get("coarse_enough")); if (aggr_block) { s.set("aggr_block_size", 2); res.counts["pointwise_aggregation_worlds"]++; } if (!varied.empty()) { s.set("varied_parameters", varied); res.counts["varied_parameter_worlds"]++; } s.set("nullspace_vectors", nscols); s.set("repartition", (long)repart_on); s.set("late_send_read", (long)mc.late_send_read); s.set("recv_poison", (long)mc.recv_poison); s.set("rendezvous", (long)mc.rendezvous);
     s.set("strategy", sim::strategy_name(p.sched.strategy)); s.set("messages", (unsigned long long)out.stats.messages); s.set("collectives", (unsigned long long)out.stats.collectives); s.set("iters", iters[0]); s.set("resid", resid[0]);
     res.sample = s;
     return res;
